@@ -1,6 +1,7 @@
 #!/bin/bash
-# usage: tools/nstest.sh <dir> <go test args...>   run go test in a private network namespace (own loopback),
-# so that concurrently running copies of the serf test-suite cannot gossip with each other.
+# usage: tools/nstest.sh <dir> <go test args...>   run go test in a private network namespace (own loopback,
+# multicast enabled for the mDNS test), so that concurrently running copies of the serf test-suite cannot
+# gossip with each other.
 D="$1"; shift
 export PATH=/opt/veriftools/go1.26.8/bin:$PATH GOFLAGS=-mod=mod GOPROXY=off GOSUMDB=off GOTOOLCHAIN=local; unset GOWORK
-cd "$D" && exec unshare -rn sh -c 'ip link set lo up; exec go test -vet=off -count=1 "$@"' sh "$@"
+cd "$D" && exec unshare -rn sh -c 'ip link set lo up; ip link set lo multicast on; ip route add 224.0.0.0/4 dev lo; ip -6 route add ff00::/8 dev lo 2>/dev/null; exec go test -vet=off -count=1 "$@"' sh "$@"
